@@ -166,6 +166,7 @@ def run(ctx):
     _promo_rules(ctx)
     _switch_rules(ctx)
     _condition_rules(ctx)
+    _size_types(ctx)
 
 
 def _promo_rules(ctx):
@@ -292,3 +293,82 @@ def _condition_rules(ctx):
     cj = [c for c in ast.walk(cg) if isinstance(c, ast.Call) and norm(c.func) == "ir.CJump"]
     ok = len(z) == 1 and norm(z[0].args[1]).endswith(".typ") and len(cj) == 1 and try_const(cj[0].args[1]) == "==" and [norm(a) for a in cj[0].args[3:5]] == ["no_block", "yes_block"]
     ctx.ob("C01.R6", "ppci/lang/c/codegenerator.py:CCodeGenerator.check_non_zero", "the generated test compares with a zero of the expression's own type; equal goes to the no-block", ok, construct="zero-of-own-type")
+
+
+def _size_types(ctx):
+    """R7: C11 6.5.6p9 - the difference of two pointers has the SIGNED type ptrdiff_t; 6.5.3.4p5 - sizeof yields the
+    UNSIGNED type size_t; 6.2.5p6 - every unsigned type is distinct from its signed counterpart (also in the IR)."""
+    ctx.rule("C01.R7", "pointer - pointer has a signed integer type of pointer width; sizeof has an unsigned one; every unsigned C type maps to an unsigned IR type of its size", floor=8)
+    ini = ctx.fn(S, "CSemantics.__init__")
+    attr_specs = {}
+    for n in ast.walk(ini):
+        if isinstance(n, ast.Assign) and len(n.targets) == 1 and isinstance(n.targets[0], ast.Attribute) and norm(n.targets[0].value) == "self":
+            attr_specs.setdefault(n.targets[0].attr, []).append(n.value)
+    def specs(e, depth=0):
+        """list of C type-specifier lists an expression of __init__ can denote, or None"""
+        if isinstance(e, ast.Call) and norm(e.func) == "self.get_type" and len(e.args) == 1:
+            v = try_const(e.args[0])
+            return [tuple(v)] if isinstance(v, (list, tuple)) else None
+        if isinstance(e, ast.Attribute) and norm(e.value) == "self" and e.attr in attr_specs and depth < 4:
+            out = []
+            for v in attr_specs[e.attr]:
+                r = specs(v, depth + 1)
+                if r is None:
+                    return None
+                out += r
+            return out
+        return None
+    ob = ctx.fn(S, "CSemantics.on_binop")
+    site = S + ":CSemantics.on_binop"
+    pp = [n for n in ast.walk(ob) if isinstance(n, ast.If) and norm(n.test) == "rhs.typ.is_pointer" and any(isinstance(a, ast.If) and norm(a.test) == "lhs.typ.is_pointer" for a in _ancestors(n))
+          and any(isinstance(a, ast.If) and norm(a.test) in ("op == '-'", 'op == "-"') for a in _ancestors(n))]
+    ctx.need(len(pp) == 1, "on_binop: the pointer - pointer branch was not found")
+    rt = [a for st in pp[0].body for a in ast.walk(st) if isinstance(a, ast.Assign) and norm(a.targets[0]) == "result_typ"]
+    sp = specs(rt[0].value) if len(rt) == 1 else None
+    ok = bool(sp) and all("unsigned" not in t and any(k in t for k in ("int", "long")) for t in sp)
+    ctx.ob("C01.R7", site, "the result type of pointer - pointer is signed (a negative difference stays negative; it is divided by the element size and compared as a signed number)", ok, construct="ptrdiff-signed",
+           node=rt[0] if rt else pp[0], detail="%s = %s" % (norm(rt[0].value) if rt else "?", sp))
+    sz = {}
+    for n in ast.walk(ini):
+        if isinstance(n, ast.If) and "sizeof" in norm(n.test) and "intptr_type" in norm(n.test):
+            for br, lab in ((n.body, "int-is-pointer-sized"), (n.orelse, "otherwise")):
+                for st in br:
+                    for a in ast.walk(st):
+                        if isinstance(a, ast.Assign) and isinstance(a.targets[0], ast.Attribute) and len(rt) == 1 and norm(a.targets[0]) == norm(rt[0].value):
+                            sz[lab] = specs(a.value)
+    ok = sz.get("int-is-pointer-sized") and sz.get("otherwise") and all("long" not in t for t in sz["int-is-pointer-sized"]) and all("long" in t for t in sz["otherwise"])
+    ctx.ob("C01.R7", S + ":CSemantics.__init__", "that type is int when an int is as wide as a pointer and long otherwise", bool(ok), construct="ptrdiff-width", detail=str(sz))
+    so = [c for q in ("CSemantics.on_sizeof", "CSemantics.on_builtin_offsetof") if (S, q) for c in ast.walk(ctx.fn(S, q)) if isinstance(c, ast.Call) and norm(c.func).startswith("expressions.") and len(c.args) >= 2] if ctx.project.modules[S].defs.get("CSemantics.on_sizeof") else []
+    ctx.need(bool(so), "on_sizeof: construction of the Sizeof expression not found")
+    sp2 = specs(so[0].args[1])
+    ok = bool(sp2) and all("unsigned" in t for t in sp2)
+    ctx.ob("C01.R7", S + ":CSemantics.on_sizeof", "the type of a sizeof expression is unsigned (size_t): `sizeof(int) - 5 > 0` is true in C", ok, construct="sizeof-unsigned", node=so[0], detail="%s = %s" % (norm(so[0].args[1]), sp2))
+    cg = ctx.fn("ppci/lang/c/codegenerator.py", "CCodeGenerator.__init__")
+    tables = {}
+    for n in ast.walk(cg):
+        if isinstance(n, ast.Assign) and isinstance(n.value, ast.Dict) and isinstance(n.targets[0], ast.Name) and n.targets[0].id in ("int_types", "uint_types"):
+            tables[n.targets[0].id] = {try_const(k): norm(v) for k, v in zip(n.value.keys, n.value.values)}
+    ctx.need(set(tables) == {"int_types", "uint_types"}, "CCodeGenerator.__init__: int_types / uint_types tables not found")
+    for size, t in sorted(tables["int_types"].items()):
+        ctx.ob("C01.R7", "ppci/lang/c/codegenerator.py:CCodeGenerator.__init__", "a signed integer of %d bytes maps to ir.i%d" % (size, size * 8), t == "ir.i%d" % (size * 8), construct="int-map:%d" % size, detail=t)
+    for size, t in sorted(tables["uint_types"].items()):
+        ctx.ob("C01.R7", "ppci/lang/c/codegenerator.py:CCodeGenerator.__init__", "an unsigned integer of %d bytes maps to ir.u%d (unsigned division, shift and comparison are chosen by the IR type)" % (size, size * 8), t == "ir.u%d" % (size * 8), construct="uint-map:%d" % size, detail=t)
+    tm = [n for n in ast.walk(cg) if isinstance(n, ast.Assign) and norm(n.targets[0]) == "self.ir_type_map" and isinstance(n.value, ast.Dict)]
+    ctx.need(len(tm) == 1, "ir_type_map not found")
+    for k, v in zip(tm[0].value.keys, tm[0].value.values):
+        name = norm(k).split(".")[-1]
+        if not isinstance(v, ast.Tuple) or name in ("FLOAT", "DOUBLE", "LONGDOUBLE", "VA_LIST"):
+            continue
+        t = norm(v.elts[0])
+        uns = name.startswith("U")
+        ok = ("uint_types[" in t) if (uns and "[" in t) else ("int_types[" in t and "uint_types[" not in t) if "[" in t else (t.startswith("ir.u") == uns)
+        ctx.ob("C01.R7", "ppci/lang/c/codegenerator.py:CCodeGenerator.__init__", "BasicType.%s takes an %s IR type" % (name, "unsigned" if uns else "signed"), ok, construct="signedness:" + name, detail=t)
+
+
+def _ancestors(n):
+    out = []
+    n = getattr(n, "_parent", None)
+    while n is not None:
+        out.append(n)
+        n = getattr(n, "_parent", None)
+    return out
